@@ -133,6 +133,32 @@ theorem subscriber_closed_by_handle_close (s : St) (h : Reach (sys allFixed) s) 
       exact ⟨_, getElem?_modify_self _ _ _ _ hy, rfl, by simp [h0]⟩
     · simp at hact
 
+/-- **… also when the subscriber's Close fails**: handleClose cancels the handler's context whatever `Close` answered. From
+    the call, the error return (the subscription is NOT ended by it) leads straight to `stopFn()`; after that step the
+    handler's context is done, so a subscription that honours its context can end – for handlers started by Run and for
+    handlers started by a later RunHandlers alike (no use of Run's own cancel). -/
+theorem handle_close_cancels_context_when_close_fails (fx : Fix) (s : St) (i : Nat) (y : Handler)
+    (hy : s.hs[i]? = some y) (hc : y.hc = .innerCall) :
+    ∃ s1 s2 y2, act fx s (.hcCloseFail i) = some s1 ∧ act fx s1 (.hcStop i) = some s2 ∧
+      s2.hs[i]? = some y2 ∧ y2.ctxDone = true ∧ y2.hc = .done ∧ y2.innerClosed = y.innerClosed ∧ y2.subCloseCalls = y.subCloseCalls ∧
+      (y2.pump ≠ .off → y2.innerClosed = false → (act fx s2 (.innerCtx i)).isSome = true) := by
+  have h1 : act fx s (.hcCloseFail i) = some (updH s i fun h => { h with hc := .stop }) := by
+    simp [act, hy, hc]
+  have hy1 : (updH s i fun h => { h with hc := .stop }).hs[i]? = some { y with hc := .stop } :=
+    getElem?_modify_self _ _ _ _ hy
+  have h2 : act fx (updH s i fun h => { h with hc := .stop }) (.hcStop i) =
+      some (updH (updH s i fun h => { h with hc := .stop }) i fun h => { h with hc := .done, ctxDone := true }) := by
+    simp [act, hy1]
+  have hy2 : (updH (updH s i fun h => { h with hc := .stop }) i fun h => { h with hc := .done, ctxDone := true }).hs[i]? =
+      some { y with hc := .done, ctxDone := true } :=
+    getElem?_modify_self _ _ (fun h : Handler => { h with hc := .done, ctxDone := true }) { y with hc := .stop } hy1
+  refine ⟨_, _, _, h1, h2, hy2, rfl, rfl, rfl, rfl, ?_⟩
+  intro hp hic
+  have hp' : y.pump ≠ .off := hp
+  have hic' : y.innerClosed = false := hic
+  simp only [act, hy2]
+  simp [hp', hic', ctxOf]
+
 /-- **If running handlers outlive CloseTimeout, Close returns an error instead of hanging**: while the performing Close
     waits, the timer can fire; once it has fired the call can return, and it returns the error, closing closedCh and
     releasing both locks – whatever the handlers do -/
